@@ -55,12 +55,11 @@ def cbool(b):
     return 'true' if b else 'false'
 
 
-def ckind(x):
-    if type(x) is tuple:
-        return 'STuple'
-    if type(x) is list:
-        return 'SList'
-    raise Unconvertible(f'sequence expected, got {type(x).__name__}')
+def ctuple(x, what):
+    """The fields that create() and from_dict() make tuples must be tuples."""
+    if type(x) is not tuple:
+        raise Unconvertible(f'{what} held as {type(x).__name__}, not as a tuple')
+    return x
 
 
 def pyv(v):
@@ -90,9 +89,6 @@ def pyv(v):
                 raise Unconvertible(f'dict key of type {type(k).__name__}')
             items.append(f'({kk}, {pyv(x)})')
         return '(PDict ' + ct.lst(items) + ')'
-    if type(v).__name__ == 'frozenmapping':
-        inner = pyv(dict(v))
-        return '(PMapping ' + inner[len('(PDict '):]
     raise Unconvertible(f'value of type {type(v).__name__}')
 
 
@@ -122,8 +118,8 @@ def dist(d):
     if isinstance(d, NormalDistribution):
         return f'(DN (Nd {cstr(d._name)} {cstr(d._level)} {expr(d._mean)} {expr(d._variance)}))'
     if isinstance(d, JointNormalDistribution):
-        names = d._names
-        return (f'(DJ (Jn {ckind(names)} {ct.lst([cstr(n) for n in names])} {cstr(d._level)} '
+        names = ctuple(d._names, 'names')
+        return (f'(DJ (Jn {ct.lst([cstr(n) for n in names])} {cstr(d._level)} '
                 f'{cstr(d._mean.serialize())} {cstr(d._variance.serialize())}))')
     raise Unconvertible(type(d).__name__)
 
@@ -199,11 +195,10 @@ def common(s):
 
 
 def derivs(d):
-    if type(d) is tuple and len(d) == 0:
-        return '(DSt STuple [])'
+    ctuple(d, 'derivatives')
     if all(type(x) is str for x in d):
-        return f'(DSt {ckind(d)} {ct.lst([cstr(x) for x in d])})'
-    if type(d) is tuple and all(type(x) is tuple for x in d):
+        return f'(DSt {ct.lst([cstr(x) for x in d])})'
+    if all(type(x) is tuple for x in d):
         return '(DSy ' + ct.lst([ct.lst([expr(e) for e in x]) for x in d]) + ')'
     raise Unconvertible('derivatives of unexpected shape')
 
@@ -211,12 +206,12 @@ def derivs(d):
 def step(s):
     from pharmpy.model import EstimationStep, SimulationStep
     if isinstance(s, EstimationStep):
-        res, pred = s._residuals, s._predictions
+        res, pred = ctuple(s._residuals, 'residuals'), ctuple(s._predictions, 'predictions')
         return ('(SE (Es ' + ' '.join([
             cstr(s._method), cbool(s._interaction), copt(cstr, s._parameter_uncertainty_method),
             cbool(s._evaluation), copt(cz, s._maximum_evaluations), cbool(s._laplace),
             copt(cz, s._isample), copt(cz, s._niter), copt(cbool, s._auto), copt(cz, s._keep_every_nth_iter),
-            ckind(res), ct.lst([cstr(x) for x in res]), ckind(pred), ct.lst([cstr(x) for x in pred]),
+            ct.lst([cstr(x) for x in res]), ct.lst([cstr(x) for x in pred]),
             derivs(s._derivatives), cbool(s._individual_eta_samples), common(s)]) + '))')
     if isinstance(s, SimulationStep):
         return f'(SS (Si {cz(s._n)} {cz(s._seed)} {common(s)}))'
@@ -227,10 +222,21 @@ def steps(es):
     return ct.lst([step(s) for s in es._steps])
 
 
+def cats(c):
+    if c is None:
+        return 'CNone'
+    if type(c) is tuple:
+        return '(CTuple ' + ct.lst([pyv(x) for x in c]) + ')'
+    if type(c).__name__ == 'frozenmapping':
+        inner = pyv(dict(c))
+        return '(CMap ' + inner[len('(PDict '):]
+    raise Unconvertible(f'categories held as {type(c).__name__}')
+
+
 def column(c):
     return ('(Col ' + ' '.join([
         cstr(c._name), cstr(c._type), cstr(c._unit.serialize()), cstr(c._scale), copt(cbool, c._continuous),
-        pyv(c._categories), cbool(c._drop), cstr(c._datatype), copt(cstr, c._descriptor)]) + ')')
+        cats(c._categories), cbool(c._drop), cstr(c._datatype), copt(cstr, c._descriptor)]) + ')')
 
 
 def datainfo(di):
